@@ -129,6 +129,8 @@ class ContractRun(object):
     self.segment_lines = 0
     self.time_s = 0.0
     self.vacuous = []
+    self.code_sha = None       # target + inlined callees
+    self.inlined = []
 
 
 def _snapshot(v, memo=None):
@@ -268,12 +270,13 @@ def run_paths(contract, registry=None, concrete_args=None, max_paths=4000, timeo
 
 
 def concretize_args(contract, ob, model):
-  """Builds plain Python arguments from a counter-model (for replay on the real code)."""
+  """Builds plain Python arguments from a counter-model (for replay on the real code).  Members of
+  sets / keys of maps are looked for among a universe of candidates, which is grown with the
+  integers found in the values built so far (two more rounds), so that e.g. a key that only occurs
+  as a VALUE of another map is found too."""
   ev = lambda t: model.eval(t, model_completion=True)
   if contract.custom_concretize is not None:
     return contract.custom_concretize(contract, ob, model, ev)
-  out = {}
-  later = []
   ints = set(range(-2, 7))
   for t in _int_terms(ob.witness_env):
     try:
@@ -281,19 +284,49 @@ def concretize_args(contract, ob, model):
       ints.update((n - 1, n, n + 1))
     except Exception:
       pass
-  V.REPLAY_UNIVERSE = tuple(sorted(ints))
-  for name, shape in contract.params.items():
-    if not isinstance(shape, Shape):
-      out[name] = shape
-      continue
-    v = ob.witness_env.get(name)
-    if isinstance(shape, (V.SetOf, V.MapOf)):
-      later.append((name, shape, v))
-      continue
-    out[name] = shape.concretize(v, model, ev)
-  for name, shape, v in later:
-    uni = contract.universe(out) if contract.universe else _default_universe(out)
-    out[name] = shape.concretize(v, model, ev, universe=uni)
+  # ... and with the indices at which the model's arrays (sets, maps) differ from their default
+  for v in _walk_values(ob.witness_env or {}):
+    arrs = [v.arr] if isinstance(v, SSet) else ([v.present] + list(v.arrs)) if isinstance(v, SMap) \
+        else list(v.arrs) if isinstance(v, SSeq) else []
+    for a in arrs:
+      try:
+        ints |= _array_indices(ev(a))
+      except Exception:
+        pass
+  out = {}
+  for _round in range(3):
+    V.REPLAY_UNIVERSE = tuple(sorted(ints))
+    out = {}
+    later = []
+    for name, shape in contract.params.items():
+      if not isinstance(shape, Shape):
+        out[name] = shape
+        continue
+      v = ob.witness_env.get(name)
+      if isinstance(shape, (V.SetOf, V.MapOf)):
+        later.append((name, shape, v))
+        continue
+      out[name] = shape.concretize(v, model, ev)
+    for name, shape, v in later:
+      uni = contract.universe(out) if contract.universe else \
+          sorted(set(_default_universe(out)) | set(V.REPLAY_UNIVERSE), key=repr)
+      out[name] = shape.concretize(v, model, ev, universe=uni)
+    found = {x for x in _default_universe(out) if isinstance(x, int) and not isinstance(x, bool)}
+    if found <= ints or len(ints) > 400: break
+    ints |= found
+  return out
+
+
+def _array_indices(e, depth=0):
+  """Integer indices occurring in Store(...) chains of a model's array value (nested arrays too)."""
+  out = set()
+  if depth > 6 or not z3.is_expr(e): return out
+  if z3.is_store(e):
+    a, i, v = e.children()
+    if z3.is_int_value(i): out.add(i.as_long())
+    out |= _array_indices(a, depth) | _array_indices(v, depth + 1)
+  elif z3.is_const_array(e):
+    out |= _array_indices(e.children()[0], depth + 1)
   return out
 
 
@@ -425,8 +458,19 @@ def verify_contract(contract, registry=None, timeout_ms=10000):
   if loc is not None:
     run.sha = loc[3]
     run.segment_lines = loc[2].count("\n") + 1
+  from . import interp as _interp
+  _interp.INTERPRETED.clear()
   try:
     obs, unsupported, npaths, assumed = run_paths(contract, registry)
+    # hash of ALL the code the obligations were generated from: the target and every inlined callee
+    # (AST dump: insensitive to comments and layout)
+    import hashlib
+    parts = sorted((q, hashlib.sha256(ast.dump(n).encode()).hexdigest())
+                   for q, n in _interp.INTERPRETED.items())
+    if loc is not None:
+      parts.append(("<target>", hashlib.sha256(ast.dump(loc[0]).encode()).hexdigest()))
+    run.code_sha = hashlib.sha256(repr(parts).encode()).hexdigest()
+    run.inlined = [q for q, _ in parts if q != "<target>"]
   except Exception as e:
     run.unsupported.append("internal error: %s" % traceback.format_exc(limit=6))
     run.time_s = time.time() - t0
